@@ -459,14 +459,14 @@ def parse_cexpr(toks):
             return "(.paren %s)" % e
         if t in ("~", "!", "-", "+"):
             e = primary()
-            return "(.un \"%s\" %s)" % (t, e)
+            return "(.un n!\"%s\" %s)" % (t, e)
         m = re.match(r"^(0[xX][0-9a-fA-F]+|\d+)([uUlL]*)$", t)
         if m:
-            return "(.num %d \"%s\")" % (int(m.group(1), 0), t)
+            return "(.num %d n!\"%s\")" % (int(m.group(1), 0), t)
         if re.match(r"^[A-Za-z_]\w*$", t):
             if peek() == "(":
                 raise ValueError("unexpanded call " + t)
-            return "(.var \"%s\")" % t
+            return "(.var n!\"%s\")" % t
         raise ValueError("unexpected token " + t)
 
     def expr(minp):
@@ -529,7 +529,17 @@ def object_facts():
                 size, typ, bind, ndx, name = m.groups()
                 if typ in ("OBJECT", "TLS", "COMMON") and name:
                     sec = "COMMON" if ndx == "COM" else (secnames.get(int(ndx), ndx) if ndx.isdigit() else ndx)
-                    objs.append((name, sec, int(size)))
+                    if sec == "COMMON":
+                        cls = 5
+                    elif typ == "TLS" or "T" in secs.get(sec, (0, "", ""))[1]:
+                        cls = 4
+                    elif sec.startswith(".data.rel.ro"):
+                        cls = 1
+                    elif "W" in secs.get(sec, (0, "", ""))[1]:
+                        cls = 3 if secs[sec][2] == "NOBITS" else 2
+                    else:
+                        cls = 0
+                    objs.append((name, sec, cls, int(size)))
         writable = {n: s[0] for n, s in secs.items() if "W" in s[1] and "A" in s[1] and s[0] > 0 and not n.startswith(".data.rel.ro")}
         facts.append({"file": os.path.relpath(f, SRC), "writable_sections": writable, "objects": objs,
                       "tls": {n: s[0] for n, s in secs.items() if "T" in s[1] and s[0] > 0}})
@@ -609,7 +619,7 @@ def emit(data):
     out["Tables.lean"] = s
     # ---- Cap
     s = HEADER
-    s += "def capTokens : List String := [%s]\n" % ", ".join(lstr(t) for t in data["cap_tokens"])
+    s += "def capTokens : List Name := [%s]\n" % ", ".join(lname(t) for t in data["cap_tokens"])
     if data["cap_tree"]:
         s += "def capTree : Option CExpr := some %s\n" % data["cap_tree"]
     else:
@@ -631,7 +641,7 @@ def emit(data):
     for f in data["objects"]:
         ws = ", ".join("(%s, %d)" % (lstr(n), z) for n, z in sorted(f["writable_sections"].items()))
         tls = ", ".join("(%s, %d)" % (lstr(n), z) for n, z in sorted(f["tls"].items()))
-        ob = ", ".join("⟨%s, %s, %d⟩" % (lstr(n), lstr(sec), z) for n, sec, z in f["objects"])
+        ob = ", ".join("⟨%s, %s, %d, %d⟩" % (lstr(n), lstr(sec), c, z) for n, sec, c, z in f["objects"])
         items.append("  ⟨%s, [%s], [%s], [%s]⟩" % (lstr(f["file"]), ws, tls, ob))
     s += ",\n".join(items) + "]\n\nend LWV.Gen\n"
     out["Objects.lean"] = s
